@@ -147,3 +147,123 @@ Example C16_handler_cut_nonvacuous :
   (* with the whole payload the same ping is answered *)
   fst (handle 1 true (mkHeader true 0 9 true [1; 2; 3; 4] 3) [1; 2; 3] TEOF [2] [] (mkDest [] None)) = HNil.
 Proof. vm_compute. repeat split; reflexivity. Qed.
+
+(* ------------------------------------------------------------------ the ReadData family *)
+Require Import ReadData ReadDataGen ReadDataGenProofs.
+
+(* wsutil.ReadData / ReadClientData / ReadServerData / … (helper.go:readData, model
+   [read_data_call]) on a CUT stream: the wire bytes of a frame sequence the spec accepts
+   completely are cut after ANY number [cut] of bytes strictly inside the stream, the transport
+   then reports io.EOF or fails ([t]); both sides, every wanted kind, every chunking of the bytes
+   that do arrive, every list of masking keys. ONE call meets [rx_monitor_gen]
+   (coq/model/ReadDataGen.v), which runs the frame-sequence spec over the frames that arrived
+   COMPLETELY ([frames_before]) and nothing else:
+   * the replies written are exactly those the walk asks for the control frames among them, up
+     to the first wanted complete message / close — a control frame whose payload is cut is
+     never answered, a shortened ping payload is never echoed;
+   * the result is the first wanted message (peer's close, invalid-close error) that is complete
+     within the first [cut] bytes, if there is one; otherwise it is an ERROR, never data — a
+     message that is incomplete on the wire is never returned — and the error is not a clean
+     io.EOF, except when the transport ends (io.EOF) exactly at a frame boundary outside a
+     message (then it IS io.EOF) — or inside a header outside a message, where the class is left
+     open as in [cut_monitor] (ws.ReadHeader reports io.EOF when the stream ends exactly
+     between the fixed and the extended part of a header). *)
+Theorem C16_read_data_cut : forall state want fs cut t s masks fuel,
+  (state = 1 \/ state = 2) -> Forall wf_sframe fs -> Forall wf_key masks ->
+  sr_out (spec_run (mkCfg state true 0 false) 0 None [] fs) = OClean ->
+  (cut < length (Reader.wire fs))%nat ->
+  wf_src s -> tl s = t -> flat s = firstn cut (Reader.wire fs) -> (cut + 2 <= fuel)%nat ->
+  let '(res, log) := read_data_call fuel want state s masks in
+  rx_monitor_gen state want fs (N.of_nat cut) (match t with TFail => true | TEOF => false end) res log = true.
+Proof. exact read_data_cut. Qed.
+Print Assumptions C16_read_data_cut.
+
+(* the same monitor holds for EVERY frame sequence (valid or not) and every cut, the complete
+   stream included (cut = |wire fs|): when a frame wholly before the cut breaks a header rule the
+   call stops there with the spec's error class. Proviso: Discard does not validate UTF-8, so
+   when text is NOT wanted the frames before the cut must not hold an invalid text message
+   (the spec checks every text message; with text wanted there is no proviso). *)
+Theorem C16_read_data_cut_any : forall state want fs cut t s masks fuel,
+  (state = 1 \/ state = 2) -> Forall wf_sframe fs -> Forall wf_key masks ->
+  (cut <= length (Reader.wire fs))%nat ->
+  wf_src s -> tl s = t -> flat s = firstn cut (Reader.wire fs) -> (cut + 2 <= fuel)%nat ->
+  (N.land want 1 <> 0 \/
+   sr_out (spec_run (mkCfg state true 0 false) 0 None [] (fst (frames_before (N.of_nat cut) fs))) <> OInvalidUtf8) ->
+  let '(res, log) := read_data_call fuel want state s masks in
+  rx_monitor_gen state want fs (N.of_nat cut) (match t with TFail => true | TEOF => false end) res log = true.
+Proof. exact read_data_meets_spec_gen. Qed.
+Print Assumptions C16_read_data_cut_any.
+
+(* the class of the error, on ANY source (arbitrary bytes, any chunking, either tail): the model's
+   out-of-fuel artefact does not occur, and an I/O error returned by the call is the transport's
+   own failure exactly when the transport fails, io.EOF / io.ErrUnexpectedEOF when it ends. With
+   C16_read_data_cut (no clean io.EOF inside a frame or a message): on a stream cut by an ending
+   transport an I/O error is io.ErrUnexpectedEOF, on a failing one the transport's error. *)
+Theorem C16_read_data_error_class : forall fuel want state s masks,
+  wf_src s -> (length (flat s) + 2 <= fuel)%nat ->
+  forall e, fst (read_data_call fuel want state s masks) = RDErr e ->
+  e <> ROutOfFuel /\
+  forall x, e = RIo x -> match tl s with TFail => x = EFail | TEOF => x <> EFail end.
+Proof. exact read_data_error_class. Qed.
+Print Assumptions C16_read_data_error_class.
+
+(* C16 for the ReadData family, spelled out with the exact error: on a cut VALID stream the error
+   is ALWAYS an I/O error — the bytes of a cut frame that did arrive never cause a protocol or
+   UTF-8 error — namely the transport's own failure when it fails, and when it ends:
+   io.ErrUnexpectedEOF, or io.EOF only if the frames before the cut end outside a message and
+   the cut falls on that frame boundary or inside the following header. (Proof: coupling of the
+   call on the cut source with the call on the complete stream, proofs/ReadDataCutIoProofs.v;
+   the fuel bound is the one of the complete stream.) *)
+Require Import ReadDataCutIoProofs.
+Theorem C16_read_data_cut_spelled : forall state want fs cut t s masks fuel,
+  (state = 1 \/ state = 2) -> Forall wf_sframe fs -> Forall wf_key masks ->
+  sr_out (spec_run (mkCfg state true 0 false) 0 None [] fs) = OClean ->
+  (cut < length (Reader.wire fs))%nat ->
+  wf_src s -> tl s = t -> flat s = firstn cut (Reader.wire fs) -> (length (Reader.wire fs) + 2 <= fuel)%nat ->
+  let '(res, log) := read_data_call fuel want state s masks in
+  let '(done, rest) := frames_before (N.of_nat cut) fs in
+  let sp := spec_run (mkCfg state true 0 false) 0 None [] done in
+  let hdr_len := match nth_error fs (length done) with
+                 | Some f => len (rfc_header (sf_header f)) | None => 0 end in
+  exists rf, frames_of (concat log) = Some rf /\
+    xreplies_ok state (fst (rx_walk want (sr_events sp) [])) rf = true /\
+    match snd (rx_walk want (sr_events sp) []) with
+    | Some xr => rx_result_matches (Some xr) res = true
+    | None => exists x, res = RDErr (RIo x) /\
+        match t with
+        | TFail => x = EFail
+        | TEOF => x = EUnexpected \/ (x = EEOF /\ sr_out sp = OClean /\ (rest = 0 \/ rest < hdr_len))
+        end
+    end.
+Proof. exact read_data_cut_spelled. Qed.
+Print Assumptions C16_read_data_cut_spelled.
+
+Example C16_read_data_cut_nonvacuous :
+  let k1 := [17; 34; 51; 68] in let k2 := [255; 0; 128; 7] in
+  let fs := [mkSF true 0 9 (Some k1) [1; 2; 3];               (* ping before anything: pong [1;2;3] *)
+             mkSF false 0 1 (Some k1) [226; 130];             (* text, fragmented: not wanted, skipped *)
+             mkSF true 0 9 (Some k2) [4];                     (* ping inside it: answered *)
+             mkSF true 0 0 (Some k1) [172; 104; 105];
+             mkSF true 0 2 (Some k2) [7; 8; 9; 10];           (* binary: wanted — the cut falls inside its payload *)
+             mkSF true 0 9 (Some k1) [5]] in
+  let run (cut : nat) (t : tail) :=
+    read_data_call (cut + 2) 2 1 (mkSrc (chunk_by [3; 1; 7; 2; 2; 9; 1; 1; 4; 30] (firstn cut (Reader.wire fs))) t) [] in
+  let pongs := [[138; 3; 1; 2; 3]; [138; 1; 4]] in
+  sr_out (spec_run (mkCfg 1 true 0 false) 0 None [] fs) = OClean /\ length (Reader.wire fs) = 50%nat /\
+  (* cut inside the payload of the wanted message (bytes 39..42) *)
+  run 41%nat TEOF = (RDErr (RIo EUnexpected), pongs) /\ run 41%nat TFail = (RDErr (RIo EFail), pongs) /\
+  rx_monitor_gen 1 2 fs 41 false (RDErr (RIo EUnexpected)) pongs = true /\
+  (* the monitor refuses the shortened message, a clean end, a lost and a surplus reply *)
+  rx_monitor_gen 1 2 fs 41 false (RDData 2 [7; 8]) pongs = false /\
+  rx_monitor_gen 1 2 fs 41 false (RDErr (RIo EEOF)) pongs = false /\
+  rx_monitor_gen 1 2 fs 41 false (RDErr (RIo EUnexpected)) [[138; 3; 1; 2; 3]] = false /\
+  rx_monitor_gen 1 2 fs 41 false (RDErr (RIo EUnexpected)) (pongs ++ [[138; 1; 5]]) = false /\
+  (* cut inside the payload of the ping interleaved in the skipped message: it is not answered *)
+  run 23%nat TEOF = (RDErr (RIo EUnexpected), [[138; 3; 1; 2; 3]]) /\
+  rx_monitor_gen 1 2 fs 23 false (RDErr (RIo EUnexpected)) pongs = false /\
+  (* cut at the frame boundary before the wanted message: clean io.EOF, not with a failing transport *)
+  run 33%nat TEOF = (RDErr (RIo EEOF), pongs) /\ run 33%nat TFail = (RDErr (RIo EFail), pongs) /\
+  rx_monitor_gen 1 2 fs 33 true (RDErr (RIo EEOF)) pongs = false /\
+  (* the message complete within the cut is delivered *)
+  run 44%nat TEOF = (RDData 2 [7; 8; 9; 10], pongs).
+Proof. vm_compute. repeat split; reflexivity. Qed.
